@@ -1,5 +1,6 @@
 (* C10 - A dry run changes nothing and over-approximates the next build. *)
 From Verif Require Import Base.Prelude Base.Graph Model.Sorter Model.Expr Model.Engine Model.EngineRun.
+From Verif Require Import Model.EngineP Model.EnginePRun Proofs.EnginePRefute.
 From Verif Require Import Proofs.GraphProofs Proofs.SorterProofs Proofs.EngineTask Proofs.EngineLoop
      Proofs.EngineBuild Proofs.EngineDag Proofs.EngineRefute Proofs.EngineHistory Proofs.EngineDry Proofs.EngineDrySim.
 
@@ -95,6 +96,16 @@ Example C10_example_announced :
 Proof. vm_compute. reflexivity. Qed.
 Local Close Scope N_scope.
 
+(* F29 (known finding): the over-approximation theorem above is about graphs of declared nodes
+   (Model/Engine.v).  With directory patterns (Model/EngineP.v) it is false of the code: a consumer of
+   a pattern is not announced when the matching file that will change is the plain path product of
+   an ordinary task - the dry run reports the consumer unchanged, the real build executes it. *)
+Theorem C10_pattern_consumer_not_announced_refuted :
+  map reports_of (skipn 2 (run_phist dry_pattern_history)) =
+  [[(1, ocode OWould); (2, ocode OSkipUnchanged)]; [(1, ocode OSuccess); (2, ocode OSuccess)]]%N.
+Proof. exact dry_run_misses_pattern_consumer_refuted. Qed.
+
+Print Assumptions C10_pattern_consumer_not_announced_refuted.
 Print Assumptions C10_dry_run_inert.
 Print Assumptions C10_dry_run_inert_rejected.
 Print Assumptions C10_dry_task_silent.
